@@ -565,7 +565,7 @@ func smtRef(t *Term) string {
 	case OpSym:
 		return "|" + t.name + "|"
 	case OpPred, OpFn32:
-		if t.a.op == OpSym {
+		if isBaseApp(t) {
 			return "|ub:" + t.name + ":" + t.a.name + "|"
 		}
 		return fmt.Sprintf("u%d", t.id)
